@@ -49,11 +49,13 @@ def get_boolean_attribute(attribute_list, name, default_value=None):
         requested attribute is not found or has a non-boolean value.
     """
     attribute_value = get_attribute(attribute_list, name)
-    if not attribute_value or not attribute_value.expression.has_field(
-        "boolean_constant"
-    ):
+    if not attribute_value or not attribute_value.has_field("expression"):
         return default_value
-    return attribute_value.expression.boolean_constant.value
+    # The value may be any constant boolean expression, not only a literal.
+    value = constant_value(attribute_value.expression)
+    if not isinstance(value, bool):
+        return default_value
+    return value
 
 
 def get_integer_attribute(attribute_list, name, default_value=None):
